@@ -78,6 +78,8 @@ def check_a(ck, repo):
         if len(blocks) != 1:
             ck.violated("C16.a", init, f"if hasattr(model, '{m}') ...", f"method '{m}' is not saved under the guard hasattr/callable for the same name")
             continue
+        top = any(blocks[0] is x for x in init.node.body)
+        ck.verdict(top, "C16.a", init, blocks[0].test, f"'{m}' is hooked independently of the other methods", f"the hook for '{m}' is chained (elif) to another method's test: a model that has both methods never gets '{m}' recorded, so consecutive steps no longer chain for that method")
         b = [src_of(s) for s in blocks[0].body]
         ok = len(b) == 2 and b[0] == f"model._debug_{m} = model.{m}" and b[1] == f"self.methods['{m}'] = lambda model, X: model._debug_{m}(X)"
         ck.verdict(ok, "C16.a", init, " ; ".join(b), f"original '{m}' saved as _debug_{m} and called by the stored lambda", f"for '{m}' the saved attribute, the key and the attribute the lambda calls do not agree: {b}")
@@ -222,7 +224,7 @@ def run(ck):
     check_a(ck, repo)
     check_b(ck, repo)
     check_c(ck, repo)
-    ck.require_count("C16.a", 14, "4 wrappers x (body, signature), table, installation, 4 saved originals")
+    ck.require_count("C16.a", 18, "4 wrappers x (body, signature), table, installation, 4 saved originals")
     ck.require_count("C16.b", 20, "yields, recursive calls, container kinds x2 functions, pipeline2str")
     ck.require_count("C16.c", 9, "schema 0, order, declarations, input/output edges, ports, delimiters, input table, line list")
 
@@ -235,6 +237,7 @@ WITNESSES = [
     {"name": "wrapper-returns-copy", "file": _H, "rule": "C16.a", "old": '        self._debug.outputs["transform"] = y\n        return y\n', "new": '        self._debug.outputs["transform"] = y\n        return y[:]\n'},
     {"name": "table-crossed", "file": _H, "rule": "C16.a", "old": '        "predict": predict,\n        "predict_proba": predict_proba,\n', "new": '        "predict": predict_proba,\n        "predict_proba": predict,\n'},
     {"name": "lambda-other-saved-attr", "file": _H, "rule": "C16.a", "old": "lambda model, X: model._debug_predict(X)", "new": "lambda model, X: model._debug_transform(X)"},
+    {"name": "hook-chained-elif", "file": _H, "rule": "C16.a", "old": "        if hasattr(model, \"decision_function\") and callable(model.decision_function):", "new": "        elif hasattr(model, \"decision_function\") and callable(model.decision_function):"},
     {"name": "enumerate-child-first", "file": _H, "rule": "C16.b", "old": "            for i, (_, model) in enumerate(pipe.steps):\n                for couple in enumerate_pipeline_models(model, coor + (i,)):\n                    yield couple\n", "new": "            for i, (_, model) in enumerate(pipe.steps):\n                for couple in enumerate_pipeline_models(model, coor + (0,)):\n                    yield couple\n"},
     {"name": "enumerate-coordinate-not-extended", "file": _H, "rule": "C16.b", "old": "                for couple in enumerate_pipeline_models(model, coor + (i,)):\n                    yield couple\n        elif isinstance(pipe, TransformedTargetRegressor):", "new": "                for couple in enumerate_pipeline_models(model, coor):\n                    yield couple\n        elif isinstance(pipe, TransformedTargetRegressor):"},
     {"name": "enumerate-feature-union-dropped", "file": _H, "rule": "C16.b", "old": "        elif isinstance(pipe, FeatureUnion):\n            for i, (_, model) in enumerate(pipe.transformer_list):\n                for couple in enumerate_pipeline_models(model, coor + (i,)):\n                    yield couple\n", "new": ""},
